@@ -467,6 +467,7 @@ class Num(Val):
         self.seg = None         # D3 index map (list of segmap.Seg) when the array is a re-arrangement
         self.segax = 0          # axis the index map describes (arrays of rank > 1)
         self.mirror = False     # the vector is the complex conjugate of a spectrum-bearing vector (rows of Vh)
+        self.view_of = frozenset()   # may share memory with these caller-owned arrays (slices, asarray, transpose)
         self.org = None         # index at which the array's natural origin sits (lag 0 of a correlation, zero of an arange)
         self.sz = sp.Integer(1)  # normalisation signature: product of explicit size factors applied so far (None = mixed)
         Num._uid += 1
